@@ -586,6 +586,41 @@ def build():
         raise GenError("Opt::push_raw_option: unrecognised length check %r" % arg)
     one(r"code\.compose\(&mut self\.octets\)\?;\s*option_len\.compose\(&mut self\.octets\)\?;\s*op\(&mut self\.octets\)\?;", pro, "Opt::push_raw_option framing")
     one(r"if len > usize::from\(u16::MAX\) \{\s*Err\(Self\(\(\)\)\)", fn_body(optsrc, "check_len", after="impl LongOptData"), "LongOptData::check_len bound")
+    # constants of the structural checks (type bitmap, SVCB parameters, EDNS option shapes)
+    dn = strip_comments(read("src/rdata/dnssec.rs"))
+    fo = fn_body(dn, "from_octets", after="impl<Octs> RtypeBitmap<Octs>")
+    m1 = one(r"let len = \(data\[1\] as usize\) \+ (\d+);", fo, "RtypeBitmap::from_octets block length")
+    m2 = one(r"if len == (\d+) \{\s*return Err\(RtypeBitmapErrorEnum::BadRtypeBitmap", fo, "RtypeBitmap empty block")
+    m3 = one(r"if len > (\d+) \{\s*return Err\(RtypeBitmapErrorEnum::BadRtypeBitmap", fo, "RtypeBitmap long block")
+    one(r"if data\.len\(\) < 2 \{\s*return Err\(RtypeBitmapErrorEnum::ShortInput", fo, "RtypeBitmap short header")
+    one(r"if data\.len\(\) < len \{\s*return Err\(RtypeBitmapErrorEnum::ShortInput", fo, "RtypeBitmap short block")
+    sp = strip_comments(read("src/rdata/svcb/params.rs"))
+    one(r"if key <= last_key \{\s*Err\(ParseError::form_error\(", fn_body(sp, "check_slice"), "SvcParams key order")
+    ck = strip_comments(read("src/base/opt/cookie.rs"))
+    c1 = one(r"pub struct ClientCookie\(\[u8; (\d+)\]\);", ck, "ClientCookie size")
+    c2 = one(r"pub struct ServerCookie\(Array<(\d+)>\);", ck, "ServerCookie capacity")
+    c3 = one(r"if parser\.remaining\(\) < (\d+) \{\s*return Err\(ParseError::form_error\(\"short server cookie\"\)\)", ck, "ServerCookie minimum")
+    sn = strip_comments(read("src/base/opt/subnet.rs"))
+    snp = fn_body(sn, "parse", after="impl ClientSubnet")
+    s1 = one(r"(\d+) => \{\s*let mut buf = \[0; 4\];", snp, "subnet IPv4 family")
+    s2 = one(r"(\d+) => \{\s*let mut buf = \[0; 16\];", snp, "subnet IPv6 family")
+    one(r"usize::from\(bits\)\.div_ceil\(8\)", fn_body(sn, "prefix_bytes"), "subnet prefix_bytes")
+    if len(re.findall(r"if modified \{\s*return Err", snp)) != 1 or len(re.findall(r"if parser\.remaining\(\) != 0 \{\s*return Err", snp)) != 2:
+        raise GenError("ClientSubnet::parse: mask / trailing address checks changed")
+    kt = strip_comments(read("src/base/opt/keytag.rs"))
+    one(r"else if len % 2 == 1 \{\s*Err\(", fn_body(kt, "check_len"), "KeyTag even length")
+    al = strip_comments(read("src/base/opt/algsig.rs"))
+    one(r"if !slice\.len\(\)\.is_multiple_of\(usize::from\(u16::COMPOSE_LEN\)\) \{\s*return Err", fn_body(al, "check_slice"), "Understood even length")
+    one(r"if parser\.remaining\(\) == 0 \{\s*Ok\(Expire::new\(None\)\)\s*\} else \{\s*u32::parse\(parser\)", fn_body(strip_comments(read("src/base/opt/expire.rs")), "parse"), "Expire::parse")
+    ka = strip_comments(read("src/base/opt/keepalive.rs"))
+    one(r"if parser\.remaining\(\) == 0 \{\s*Ok\(Self::new\(None\)\)\s*\} else \{\s*IdleTimeout::parse\(parser\)", fn_body(ka, "parse", after="impl TcpKeepalive"), "TcpKeepalive::parse")
+    one(r"u16::parse\(parser\)\.map\(Self\)", fn_body(ka, "parse", after="impl IdleTimeout"), "IdleTimeout::parse")
+    ik = strip_comments(read("src/rdata/ipseckey.rs"))
+    one(r"if len_key == 0 && algorithm != IpseckeyAlgorithm::NONE \{\s*return Err\(ParseError::ShortInput\);", ik, "Ipseckey empty key")
+    one(r"if name\.is_compressed\(\) \{\s*return Err\(ParseError::Form", ik, "Ipseckey compressed gateway")
+    gws = [one(r"IpseckeyGatewayType::%s => Some\((\d+)\)" % k, ik, "Ipseckey gateway %s" % k).group(1) for k in ("NONE", "IPV4", "IPV6")]
+    check_consts = [num(m1.group(1)), num(m2.group(1)), num(m3.group(1)), num(c1.group(1)), num(c2.group(1)), num(c3.group(1)),
+                    num(s1.group(1)), num(s2.group(1))] + [num(g) for g in gws]
     rows.sort()
     parse_rows.sort()
 
@@ -608,6 +643,9 @@ def build():
     L.append(("all_eq_has_unknown_arm", "bool", b(all_unk)))
     L.append(("zone_eq_has_unknown_arm", "bool", b(zone_unk)))
     L.append(("opt_push_counts_header", "bool", b(push_hdr)))
+    # bitmap: header octets, empty block, longest block; cookie: client, server capacity, server minimum;
+    # subnet: IPv4 / IPv6 family; IPSECKEY gateway sizes none / IPv4 / IPv6
+    L.append(("check_consts_src", "list N", nl(check_consts)))
     return L
 
 
